@@ -297,10 +297,13 @@ def r3(ctx):
         ln = "len(%s)" % lst
         nonempty = {("truth", lst, True), ("truth", ln, True), pat.A("<", "0", ln),
                     pat.A("!=", ln, "0"), pat.A("<=", "1", ln)}
-        at = pat.catom(ctx, f, w.test, True, False)
+        # the pop is reached only with something waiting: the loop test, or an
+        # exit in front of it (a loop rotated to test at the bottom)
+        at = {pat.catom(ctx, f, t_, pol_, False)
+              for t_, pol_ in atomic_guards(enclosing_stmt(pops[0]), asserts=False)} & nonempty
         if len(inits) == 1 and isinstance(inits[0].value, ast.Constant) and \
                 inits[0].value.value == 0 and not isinstance(inits[0].value.value, bool) \
-                and at in nonempty:
+                and at:
             ctx.ok("C18.R3", f, w, "sum from 0 while the work list is not empty",
                    text_="getSubTree work list")
         else:
